@@ -132,7 +132,8 @@ def obligations(tier, seed):
     q = [gp3("Y8", "ttx", 2500, 40, 0), gp3("Y8", "ttx", 2000, 32, 2), gp3("YUYV", "ttx", 3100, 46, 1),
          gp3("Y8", "vps", 4000, 44, 0), gp3("RGB16_LE", "wss", 4500, 44, 2), gp3("RGB24", "msb", 2500, 34, 0),
          gp3("RGBA32_LE", "vps", 3000, 34, 1)]
-    t = list(q) + [gp3("Y8", "lp", 25000, 53, 0)]   # low-pass instances: 250 s each, thorough only
+    q = q + [gp3("Y8", "lp", 25000, 70, 0)]          # one low-pass instance (the slowest quick instance; the other low-pass points are thorough)
+    t = list(q)
     for fmt in ("Y8", "YUYV", "UYVY", "RGB24", "RGBA32_LE", "RGBA32_BE", "RGB16_LE", "RGB16_BE", "RGBA15_LE", "ARGB15_BE"):
         cfgs = [("ttx", 2500, 40), ("msb", 2700, 33), ("vps", 4000, 44), ("wss", 3000, 32)]
         if fmt in ("Y8", "YUYV"):
@@ -143,7 +144,7 @@ def obligations(tier, seed):
                 if g not in t:
                     t.append(g)
     for fmt in ("Y8", "YUYV", "RGBA32_BE"):
-        for rate, spl in ((25000, 56), (26500, 60), (25000, 52)):
+        for rate, spl in ((25000, 80), (26500, 76), (25000, 72)):     # long enough for at least one CRI bit inside the (repaired, shorter) search window: shorter lines are vacuous
             g = gp3(fmt, "lp", rate, spl, 0)
             if g not in t:
                 t.append(g)
